@@ -172,10 +172,18 @@ def stepTo (o : Opts T) (report sched : T) (orc : List (Ans T)) (s : St T) : Out
     .ret .startOfContinuousInterval { s with startCI := false, scs := .returnedNoEvent } orc
   else loop o report sched orc 0 s
 
-/-- caller obligations: the two `assert`s at the top of `stepTo`, plus "a scheduled event is never placed
-before the time the integrator has already irreversibly advanced to" (what `TimeStepper` guarantees) -/
+/-- caller obligations: the two `assert`s at the top of `stepTo`, plus: a scheduled time that lies BEHIND the advanced
+state (possible because the asserts only compare with `getTime()`, which may be an interpolated earlier time) is not
+earlier than the report time.  `TimeStepper` satisfies this: it passes `min(nextScheduledEvent, t)` with `nextScheduledEvent`
+beyond the advanced time, so a scheduled time behind the advanced state is the caller's own `t` = the report time.
+A direct API user who violates it gets `ReachedScheduledEvent` later than the scheduled time (harness class
+`schedBehindAdvanced`, notes/C19.md). -/
 def legalReq (report sched : T) (s : St T) : Bool :=
-  decide (s.time ≤ report) && decide (s.time ≤ sched) && decide (s.tAdv ≤ sched)
+  decide (s.time ≤ report) && decide (s.time ≤ sched) && (decide (s.tAdv ≤ sched) || decide (report ≤ sched))
+
+/-- the two `assert`s alone -/
+def assertsOK (report sched : T) (s : St T) : Bool :=
+  decide (s.time ≤ report) && decide (s.time ≤ sched)
 
 /-- `reinitialize` is only issued after an event-type return (as `TimeStepper` does) -/
 def reinitOK (s : St T) : Bool :=
